@@ -36,6 +36,14 @@ IndexEdges == { Prefix00 \o PI!EncodeInt(6, 3, i) : i \in {61, 62, 63, 97, 98, 9
               \cup { Prefix00 \o PI!EncodeInt(6, 2, i) : i \in {0, 1} }                                      \* T = 0: dynamic
               \cup { Prefix00 \o <<255>> \o [k \in 1..n |-> 128] \o <<0>> : n \in {1, 8, 9, 10, 11} }        \* over-long index encodings
 
+\* integers at and beyond the 64-bit bound in every integer position of a field line: static index (6-bit prefix), name-reference
+\* index (4-bit), literal name length (3-bit), value length (7-bit, with enough bytes behind it for the wrapped value)
+Cont(n, x) == [k \in 1..n |-> 128] \o <<x>>
+BigInts == { Prefix00 \o <<255>> \o Cont(n, x) : n \in 7..11, x \in {0, 1, 2, 64, 127} }
+           \cup { Prefix00 \o <<95>> \o Cont(n, x) \o <<1, 97>> : n \in 8..10, x \in {0, 1, 2, 127} }
+           \cup { Prefix00 \o <<39>> \o Cont(n, x) \o [i \in 1..7 |-> 120] \o <<1, 97>> : n \in 8..10, x \in {0, 1, 2, 127} }
+           \cup { Prefix00 \o <<81, 127>> \o Cont(n, x) \o [i \in 1..127 |-> 97] : n \in 8..10, x \in {0, 1, 2, 127} }
+
 \* Huffman-coded names / values with bad padding inside otherwise complete field lines
 HuffBad == { Prefix00 \o <<41, 255, 0>>, Prefix00 \o <<41, 254, 0>>, Prefix00 \o <<33, 120, 129, 255>>, Prefix00 \o <<33, 120, 129, 254>>,
              Prefix00 \o <<80, 129, 255>>, Prefix00 \o <<80, 130, 28, 127>>, Prefix00 \o <<80, 132, 255, 255, 255, 255>>, Prefix00 \o <<80, 130, 199, 255>> }
@@ -53,11 +61,13 @@ Next == /\ vec.fn = "start"
            \/ \E p \in OddPrefixes, b \in B1 : vec' = QDec(p \o b)
            \/ \E a \in 0..255, t \in Tails : vec' = QDec(Prefix00 \o <<a>> \o t)
            \/ \E v \in Valid : \E m \in Mutations(v) : vec' = QDec(m)
-           \/ \E e \in IndexEdges \cup HuffBad : vec' = QDec(e)
+           \/ \E e \in IndexEdges \cup HuffBad \cup BigInts : vec' = QDec(e)
            \/ \E i \in 0..98 : vec' = QDec(Prefix00 \o EncIndexedStatic(i))
            \/ \E f \in FieldsSet : vec' = QEnc(<<f>>)
            \/ \E f \in FieldsSet, g \in { <<StaticEntry(1)[1], StaticEntry(1)[2]>>, <<<<120>>, <<97>>>> } : vec' = QEnc(<<f, g, f>>)
            \/ \E i \in 0..98 : vec' = QEnc(<<StaticEntry(i)>>)
+           \* every static name with a value the table does not hold: the name reference must point at an entry with that name
+           \/ \E i \in 0..98, v \in { <<122, 122>>, <<>> } : vec' = QEnc(<< <<StaticEntry(i)[1], v>> >>)
            \/ vec' = QEnc(<<>>)
 Spec == Init /\ [][Next]_vec
 Emit == vec.fn = "start" \/ PrintT(<<"SCN", ToJson(vec)>>)
